@@ -264,6 +264,69 @@ Theorem c06_call_request_over_enc_limit :
       [Encoder.FErr (Encoder.st_too_large (nlen p)
          (match max_enc cl with Some l => l | None => Encoder.DEFAULT_MAX_SEND_MESSAGE_SIZE end))].
 Proof. exact Call.request_over_enc_limit. Qed.
+
+(* ... at ANY position: the DATA of earlier messages ms (payloads ps within the limit; cut and
+   delayed arbitrarily), then a chunk that holds the whole prefix of a frame declaring more than
+   the limit: the earlier messages are delivered first, in order, then OUT_OF_RANGE *)
+Theorem c06_call_request_over_limit_at :
+  forall (msg : Type) (deser : list N -> option msg) (decompress : encoding -> list N -> option (list N))
+         (sv : side) (sh : shape) (headers : hm) (ps : list (list N)) (ms : list msg) (evs : list bev)
+         (a b c x : N) (more : list N) (rest : list bev) (fuel : nat),
+    hm_get_all headers hdr_grpc_encoding = [] ->
+    Call.delivers msg deser decompress (dec_limit (max_dec sv)) ps ms ->
+    only_dp evs -> data_of evs = concat (map (frame 0) ps) ->
+    dec_limit (max_dec sv) < un_be32 a b c x ->
+    (length evs + length ms + 2 <= fuel)%nat ->
+    server_receive msg deser decompress sv sh headers
+                   (evs ++ BData (0 :: a :: b :: c :: x :: more) :: rest) None fuel =
+    if req_streaming sh then SeenStream headers ms (EndErr st_too_large) else SeenRejected st_too_large.
+Proof. exact Call.request_over_limit_at. Qed.
+
+Theorem c06_call_response_over_limit_at :
+  forall (msg : Type) (deser : list N -> option msg) (decompress : encoding -> list N -> option (list N))
+         (cl : side) (sh : shape) (md : hm) (ps : list (list N)) (ms : list msg) (evs : list bev)
+         (a b c x : N) (more : list N) (rest : list bev) (fuel : nat),
+    hm_get_all md hdr_grpc_encoding = [] ->
+    Call.delivers msg deser decompress (dec_limit (max_dec cl)) ps ms ->
+    only_dp evs -> data_of evs = concat (map (frame 0) ps) ->
+    dec_limit (max_dec cl) < un_be32 a b c x ->
+    (length evs + length ms + 2 <= fuel)%nat ->
+    client_call msg deser decompress cl sh 200 (Call.response_headers md)
+                (evs ++ BData (0 :: a :: b :: c :: x :: more) :: rest) fuel =
+    if resp_streaming sh then CRStream (Call.response_headers md) ms (EndErr st_too_large)
+    else match ms with
+         | [] => CRErr (with_md st_too_large (Metadata.merge [] (Call.response_headers md)))
+         | _ :: _ => CRErr st_too_large
+         end.
+Proof. exact Call.response_over_limit_at. Qed.
+
+(* client role, streaming request, the oversized OUTGOING message at any position, IN PROCESS
+   (the body error reaches the server's reader as it is): the handler's stream yields exactly the
+   earlier messages, then OUT_OF_RANGE; the caller then gets whatever the handler answers.  On
+   every real transport the client-role clause of C06 is inside the known class F-C06b below. *)
+Theorem c06_call_request_stream_over_enc_limit :
+  forall (msg : Type) (ser : msg -> option (list N)) (deser : list N -> option msg)
+         (compress : encoding -> list N -> list N) (decompress : encoding -> list N -> option (list N)),
+    (forall m p, ser m = Some p -> deser p = Some m) ->
+    forall (cl sv : side) (sh : shape) (md : hm) (src : list (Encoder.sevent msg)) (ms : list msg)
+           (ps : list (list N)) (big : msg) (p : list N) (rest : list (Encoder.item msg))
+           (script : list bev) (fuel : nat),
+      plain cl -> req_streaming sh = true ->
+      Encoder.items_of src = map Encoder.IOk ms ++ Encoder.IOk big :: rest ->
+      Forall2 (Encoder.encodes ser compress (cfg_of cl)) ms ps ->
+      Encoder.payload_of ser compress (cfg_of cl) big = Some p -> Encoder.limit_of (cfg_of cl) < nlen p ->
+      Forall (fun p => nlen p <= dec_limit (max_dec sv)) ps ->
+      hm_get_all md hdr_grpc_encoding = [] ->
+      carries (request_frames msg ser compress cl src) script ->
+      (length script + length ms + 2 <= fuel)%nat ->
+      exists qh md', request_headers cl md = Some qh /\
+        server_receive msg deser decompress sv sh qh script None fuel =
+          SeenStream md' ms (EndErr (Encoder.st_too_large (nlen p) (Encoder.limit_of (cfg_of cl)))) /\
+        st_code (Encoder.st_too_large (nlen p) (Encoder.limit_of (cfg_of cl))) = Code_OutOfRange /\
+        forall k, Metadata.is_reserved k = false -> hm_get_all md' k = hm_get_all md k.
+Proof. exact Call.request_stream_over_enc_limit. Qed.
+Print Assumptions c06_call_request_over_limit_at.
+Print Assumptions c06_call_request_stream_over_enc_limit.
 Print Assumptions c06_call_request_over_limit.
 Print Assumptions c06_call_response_over_limit.
 Print Assumptions c06_call_request_over_enc_limit.
